@@ -347,6 +347,10 @@ impl Gener {
             // a write that the memory limit refuses while it carries an explicit timestamp ahead of the clock,
             // followed by automatic writes on the same key
             5
+        } else if spec.focus == Focus::Layout && spec.cfg.persistent && spec.cfg.version == 3 && rng.chance(1, 3) {
+            // the first record of a fresh device lands in block 16: a value is searched (independent CRC32C) for
+            // which the 16-bit fold of the record checksum is ZERO - the documented token is then 1
+            10
         } else if spec.focus == Focus::Layout && spec.cfg.persistent && rng.chance(1, 4) {
             // a value of several hundred blocks is written, made durable and retired again: its
             // retirement markers span more than one marker-write chunk
@@ -483,6 +487,23 @@ impl Gener {
                 self.script.push_back(Op::Insert { k: k.clone(), v, ts: Ts::None, bytes: false });
                 self.script.push_back(Op::Incr { k: self.rng.pick(&self.keys).clone(), delta: 1, ts: Ts::None, ttl: None });
                 self.script.push_back(Op::Get { k, bytes: false });
+            }
+            return;
+        }
+        if kind == 10 {
+            let k = b"zero-fold".to_vec();
+            let ts = now + 7;
+            for i in 0..400_000u32 {
+                let v = format!("value-whose-record-checksum-folds-to-zero-{i:08}").into_bytes();
+                let rec = crate::indep::encode_record(3, &k, &v, ts, 0, 16);
+                if crate::indep::record_token_raw_fold(16, &rec) == 0 {
+                    self.script.push_back(Op::Insert { k: k.clone(), v, ts: Ts::Explicit(ts), bytes: false });
+                    self.script.push_back(Op::Flush);
+                    self.script.push_back(Op::Get { k: k.clone(), bytes: false });
+                    self.script.push_back(Op::Reopen { ttl: None, cache: None });
+                    self.script.push_back(Op::Get { k, bytes: false });
+                    break;
+                }
             }
             return;
         }
